@@ -32,6 +32,7 @@ type casRule struct {
 	Yields   int        `json:"yields,omitempty"`
 	Children []casChild `json:"children,omitempty"`
 	SampleHP bool       `json:"sample_hp,omitempty"`
+	Nested   int        `json:"nested_wait_kind,omitempty"` // the action starts a cascade of this kind with AddEventAndWait (blocks its worker)
 }
 
 type casRoot struct {
@@ -125,6 +126,59 @@ func casGen(r *simrt.RNG, tier string) interface{} {
 		}
 	}
 	nc := 1 + r.Intn(3)
+	nested := false
+	if p.Workers >= 2 && r.Bool(0.12) {
+		// nested wait: one rule on kind 0 waits for a cascade of its own.  Kind 0 is never
+		// a child kind and (below) only one root event of kind 0 is added, so at most one
+		// worker is ever blocked in a wait and another one is always available.
+		for i := range p.Rules {
+			if p.Rules[i].Kind == 0 {
+				p.Rules = append(p.Rules, casRule{Name: fmt.Sprintf("r%d", nr), Kind: p.NKinds, Prio: 0, Fail: r.Bool(0.3)})
+				p.Rules[i].Nested = p.NKinds
+				p.NKinds++
+				nested = true
+				break
+			}
+		}
+	}
+	defer func() {
+		if !nested {
+			return
+		}
+		seen := false
+		for ci := range p.Clients {
+			for ri := range p.Clients[ci] {
+				ro := &p.Clients[ci][ri]
+				if ro.Kind == 0 || ro.Kind == p.NKinds-1 {
+					if seen || ro.Kind != 0 {
+						ro.Kind = 1 + r.Intn(p.NKinds-2+1)%maxInt(1, p.NKinds-2)
+						if ro.Kind >= p.NKinds-1 {
+							ro.Kind = 1
+						}
+						if p.NKinds-1 <= 1 {
+							ro.Kind = 0
+							ro.Wait = false
+							ro.PauseNs = -1 // dropped below
+						}
+					} else {
+						seen = true
+					}
+				}
+			}
+		}
+		for ci := range p.Clients {
+			var keep []casRoot
+			for _, ro := range p.Clients[ci] {
+				if ro.PauseNs >= 0 {
+					keep = append(keep, ro)
+				}
+			}
+			p.Clients[ci] = keep
+		}
+		if !seen {
+			p.Clients = append(p.Clients, []casRoot{{Kind: 0, Wait: r.Bool(0.5)}})
+		}
+	}()
 	for c := 0; c < nc; c++ {
 		var roots []casRoot
 		n := 1 + r.Intn(2)
@@ -342,6 +396,10 @@ func (st *casState) action(ri int) engine.RuleAction {
 			ce.mon = cm
 			st.add(p, ce, cm)
 		}
+		if ru.Nested > 0 {
+			simrt.Count("fault_nested_wait_in_action")
+			st.addRoot(p, ru.Nested, true)
+		}
 		if ru.SampleHP && st.prop == "C10" {
 			st.sampleHP(e, m)
 		}
@@ -420,6 +478,44 @@ func (st *casState) sampleHP(e *casEvent, m engine.Monitor) {
 	}
 }
 
+// addRoot starts a new cascade with a root event of the given kind (from a client
+// task, or - nested wait - from inside a rule action on a worker).
+func (st *casState) addRoot(proc engine.Processor, kind int, wait bool) {
+	cas := &casCascade{id: len(st.cascades), waited: wait}
+	st.cascades = append(st.cascades, cas)
+	rm := proc.NewRootMonitor(nil, nil)
+	cas.rm = rm
+	rm.SetFinishHandler(func(engine.Processor) {
+		cas.finished++
+		if cas.finished > 1 {
+			simrt.Fail("oracle:finish-twice", "finish-twice", "finish handler of cascade %d ran %d times", cas.id, cas.finished)
+		}
+		if n := st.running[cas.id]; n > 0 {
+			simrt.Fail("oracle:finish-early", "finish-early", "finish notification of cascade %d fired while %d of its actions were still running", cas.id, n)
+		}
+	})
+	e := st.newEvent(kind, cas.id, -1)
+	e.mon = rm
+	cas.rootEvent = e.id
+	if wait {
+		e.addStart = simrt.Seq()
+		// the AddEvent inside is in progress until the root event's first action starts
+		cas.addingRoot = true
+		st.inAdd[cas.id]++
+		res, err := proc.AddEventAndWait(st.engEvent(e), rm)
+		if cas.addingRoot {
+			cas.addingRoot = false
+			st.inAdd[cas.id]--
+		}
+		e.addEnd = simrt.Seq()
+		cas.returned = true
+		st.afterAdd(e, res, err)
+		st.checkCascadeAtReturn(cas)
+	} else {
+		st.add(proc, e, rm)
+	}
+}
+
 func casRun(p *casPlan, prop string) {
 	engine.UnitTestResetIDs()
 	st := &casState{p: p, prop: prop, running: map[int]int{}, lastEnd: map[uint64]int64{}, byKind: map[int][]int{}, inAdd: map[int]int{}}
@@ -459,39 +555,7 @@ func casRun(p *casPlan, prop string) {
 				if ro.PauseNs > 0 {
 					simtime.Sleep(simtime.Duration(ro.PauseNs))
 				}
-				cas := &casCascade{id: len(st.cascades), waited: ro.Wait}
-				st.cascades = append(st.cascades, cas)
-				rm := proc.NewRootMonitor(nil, nil)
-				cas.rm = rm
-				rm.SetFinishHandler(func(engine.Processor) {
-					cas.finished++
-					if cas.finished > 1 {
-						simrt.Fail("oracle:finish-twice", "finish-twice", "finish handler of cascade %d ran %d times", cas.id, cas.finished)
-					}
-					if n := st.running[cas.id]; n > 0 {
-						simrt.Fail("oracle:finish-early", "finish-early", "finish notification of cascade %d fired while %d of its actions were still running", cas.id, n)
-					}
-				})
-				e := st.newEvent(ro.Kind, cas.id, -1)
-				e.mon = rm
-				cas.rootEvent = e.id
-				if ro.Wait {
-					e.addStart = simrt.Seq()
-					// the AddEvent inside is in progress until the root event's first action starts
-					cas.addingRoot = true
-					st.inAdd[cas.id]++
-					res, err := proc.AddEventAndWait(st.engEvent(e), rm)
-					if cas.addingRoot {
-						cas.addingRoot = false
-						st.inAdd[cas.id]--
-					}
-					e.addEnd = simrt.Seq()
-					cas.returned = true
-					st.afterAdd(e, res, err)
-					st.checkCascadeAtReturn(cas)
-				} else {
-					st.add(proc, e, rm)
-				}
+				st.addRoot(proc, ro.Kind, ro.Wait)
 			}
 		})
 	}
@@ -807,4 +871,11 @@ func (st *casState) checkDequeueOrder() {
 	case porcupine.Unknown:
 		simrt.Count("porcupine_inconclusive")
 	}
+}
+
+func maxInt(a, b int) int {
+	if a > b {
+		return a
+	}
+	return b
 }
